@@ -120,6 +120,10 @@ func validSig(k *keys, j int) ([]byte, []byte, *refdil.SignResult) {
 }
 
 func main() {
+	if f := os.Getenv("VERIF_C05_ARCH"); f != "" {
+		archChild(f)
+		return
+	}
 	ck := &drv.Check{Property: "C05", Level: "model_checking",
 		Rule: "deviation-bounded exhaustive enumeration: rogue-signer signatures (z-norm check skipped; exact-boundary corpus inputs), every adjacent transposition / duplication / padding value / challenge byte change of valid signatures, every single-bit flip of sig and pk, " +
 			"and at decoder level every 1- and 2-byte deviation of the 83-byte hint section (2-byte: 16x16 alphabet quick, 256x256 thorough) and every 20-bit z pattern at lanes 0/1; oracle: library <=> specification verifier / reference decoder, accepted strings re-encode to themselves. " +
@@ -631,5 +635,6 @@ func main() {
 			c.Nontrivial(hi - lo)
 			c.Outcome("ok")
 		}})
+	ck.Domains = append(ck.Domains, archDomain())
 	drv.Main(ck)
 }
